@@ -137,7 +137,7 @@ def strategy(tier, sub=None):
 
 
 def budget(tier, sub=None):
-    return {"examples": 9600 if tier == "quick" else 200000, "shards": 16}
+    return {"examples": 19200 if tier == "quick" else 200000, "shards": 16}
 
 
 def run_stats(spec):
